@@ -491,7 +491,11 @@ impl<U> Serialize for ExecutionContext<'_, U> {
     where
         S: Serializer,
     {
-        let mut map = serializer.serialize_map(Some(self.values.len()))?;
+        // The announced length must account for every entry written below
+        // (a JSON serializer closes the object right away when told it is empty).
+        let len =
+            self.values.iter().flatten().count() + usize::from(!self.list_matchers.is_empty());
+        let mut map = serializer.serialize_map(Some(len))?;
         for field in self.scheme().fields() {
             if let Some(Some(value)) = self.values.get(field.index()) {
                 map.serialize_entry(field.name(), value)?;
